@@ -5,6 +5,29 @@ HERE = os.path.dirname(os.path.abspath(__file__))
 sys.path.insert(0, os.path.dirname(HERE))
 from sa import seeded_eval
 
+_FE = None
+
+
+def _first_eval():
+    """optional record of the first evaluation (output of seeded_eval.py saved before the checks were strengthened): SEED_FIRST_EVAL=<file>"""
+    global _FE
+    if _FE is None:
+        _FE = {}
+        path = os.environ.get('SEED_FIRST_EVAL')
+        if path and os.path.exists(path):
+            import ast as _ast, re
+            for line in open(path):
+                mt = re.match(r"^(/\S+)\s+(CAUGHT|MISSED|INCOMPLETE)\s+own=\S+\s+fired=(\{.*?\})\s+incomplete=", line)
+                if mt:
+                    st = {'CAUGHT': 'caught', 'MISSED': 'missed', 'INCOMPLETE': 'incomplete (exit 2)'}[mt.group(2)]
+                    try:
+                        fired = _ast.literal_eval(mt.group(3))
+                    except Exception:
+                        fired = {}
+                    _FE[mt.group(1)] = dict(status=st, reported_by=fired)
+    return _FE
+
+
 def main(dirs):
     out_root = os.path.join(os.path.dirname(HERE), 'seeded')
     os.makedirs(out_root, exist_ok=True)
@@ -24,7 +47,9 @@ def main(dirs):
         res = list(ex.map(seeded_eval.run_one, [d for d, _ in good]))
     for (d, v), r in zip(good, res):
         meta = json.load(open(os.path.join(d, 'meta.json')))
-        if d.startswith('/tmp/agents2/out_'):
+        if d.startswith('/tmp/agents3/out_'):
+            sid = d.replace('/tmp/agents3/out_', '').replace('/m', '-r')        # third round: Cxx-r1..r3
+        elif d.startswith('/tmp/agents2/out_'):
             sid = d.replace('/tmp/agents2/out_', '').replace('/m', '-n')        # second round: Cxx-n1..n3
         else:
             sid = d.replace('/tmp/agents/out_', '').replace('/', '-')
@@ -40,6 +65,9 @@ def main(dirs):
                                 demo_clean_exit=v['clean_exit'], demo_with_change_exit=v['mut_exit'], tests=v['tests'], tests_failed=v['failed'].strip()),
                  detection=dict(reported_by=fired, analysis_incomplete=inc, status='caught' if fired else ('incomplete (exit 2)' if inc else 'missed')),
                  first_evaluation=dict(status='caught' if fired else ('incomplete (exit 2)' if inc else 'missed'), reported_by=fired))
+        fe = _first_eval().get(d)
+        if fe is not None:
+            m['first_evaluation'] = fe          # what the checks said when the change was evaluated for the first time (before any strengthening)
         json.dump(m, open(os.path.join(dst, 'meta.json'), 'w'), indent=1)
         print(sid, m['detection']['status'], sorted(fired))
 
